@@ -521,6 +521,40 @@ Proof.
   split; [left; reflexivity|]. split; vm_compute; reflexivity.
 Qed.
 
+(* a list subclass with a Python-level __iter__: 0 object 1 type 2 function 3 a function
+   4 list 5 class L(list) with __iter__ 6 an L() *)
+Definition heap_list_subclass : heap :=
+  [ cls_obj 1 KObject [0] [];
+    cls_obj 1 KType [1;0] [];
+    cls_obj 1 KFunction [2;0] [];
+    mkObj 2 None [] None PNone;
+    cls_obj 1 KList [4;0] [];
+    cls_obj 1 KUser [5;4;0] [(s_iter, 3)];
+    mkObj 5 (Some []) [] None PNone ].
+
+(* py__getitem__all_values iterates over instances of SUBCLASSES of list/tuple/dict *)
+Lemma safe_getitem_all_values_refuted :
+  exists h o a,
+    In a (getitem_all_values h o) /\
+    allowed_getitem_type h (access_target a) = false /\
+    user_hook h (type_of h (access_target a)) s_iter = true.
+Proof.
+  exists heap_list_subclass, 6, (AIterate 6).
+  split; [left; reflexivity|]. split; vm_compute; reflexivity.
+Qed.
+
+(* ... while for exact builtin containers it stays within the allowed types *)
+Lemma getitem_all_values_exact :
+  forall h o a,
+    kind_in (kind_of h (type_of h o)) [KDict; KList; KTuple] = true ->
+    In a (getitem_all_values h o) -> allowed_getitem_type h (access_target a) = true.
+Proof.
+  intros h o a Hk Hin. unfold getitem_all_values in Hin.
+  destruct (isinstance_kinds h o [KDict; KList; KTuple]); [|contradiction].
+  destruct Hin as [<-|[]]. cbn [access_target]. unfold allowed_getitem_type.
+  destruct (kind_of h (type_of h o)); cbn in Hk |- *; try discriminate; reflexivity.
+Qed.
+
 (* ---- the heap of the non-vacuity examples ----
    0 object  1 type  2 function  3 property  4 wrapper_descriptor  5 a wrapper descriptor
    6 class C: plain = <7>; prop = property(...) <8>; def meth <9>
